@@ -101,7 +101,8 @@ def build_or_fail(prop, tier, assumptions):
 
 
 def generic(prop, tier, oracle, assumptions, interp_workloads, compiled_workloads, k_quick=10, k_thorough=40, extra_args=(), port_faults=True,
-            tick_choices=None, compiled_share=0.3, ncomp_quick=4, ncomp_thorough=40, need_par=True, ref_extra_args=None, synth_args=()):
+            tick_choices=None, compiled_share=0.3, ncomp_quick=4, ncomp_thorough=40, need_par=True, ref_extra_args=None, synth_args=(),
+            alt_extra_args=None):
     """interp_workloads / compiled_workloads: functions (exe, tier) -> iterator of Workload."""
     t0 = time.time()
     exe, bs = build_or_fail(prop, tier, assumptions)
@@ -121,7 +122,8 @@ def generic(prop, tier, oracle, assumptions, interp_workloads, compiled_workload
 
     rargs = extra_args if ref_extra_args is None else ref_extra_args
     ref_i = lambda w: P.ref_case(w, extra_args=rargs)
-    ex.explore(interp_workloads(exe, tier), P.mk_cases_default(k, extra_args=extra_args, port_faults=port_faults, tick_choices=tick_choices), ref_i,
+    ex.explore(interp_workloads(exe, tier), P.mk_cases_default(k, extra_args=extra_args, port_faults=port_faults, tick_choices=tick_choices,
+                                                                 alt_extra_args=alt_extra_args), ref_i,
                total * (1 - compiled_share if compiled_workloads else 1.0), prepare=prep)
     nbefore = len(ex.results)
     ref_any = ref_i
@@ -242,7 +244,8 @@ def generic_profile(prop, tier, args, interp, comp):
     return generic(prop, tier, P.oracle_c20, P.A_PSIM + [
         "tuple counts are read with the repository's own profile Reader (profile/Reader.h) and compared with the number of CSV lines written",
         "the profile timer thread runs under the simulated clock: its wake-ups are seeded decisions"],
-        interp, comp, k_quick=10, k_thorough=30, extra_args=args, tick_choices=ticks, ncomp_quick=3, ncomp_thorough=20, ref_extra_args=(), synth_args=["-p", "unused-profile.json"])
+        interp, comp, k_quick=10, k_thorough=30, extra_args=args, tick_choices=ticks, ncomp_quick=3, ncomp_thorough=20, ref_extra_args=(), synth_args=["-p", "unused-profile.json"],
+        alt_extra_args=args + ["--profile-frequency"])
 
 
 CHECKS = {"C03": check_c03, "C20": check_c20, "C10": check_c10, "C11": check_c11, "C22": check_c22}
@@ -261,7 +264,9 @@ def replay(prop, path):
         w.meta["binary"] = b
         return b
 
-    ref = lambda w: P.ref_case(w, "compiled", extra_args=extra, binary=w.meta["binary"]) if w.meta.get("binary") else P.ref_case(w, extra_args=extra)
+    # C20 compares with the unprofiled sequential run
+    rextra = [] if prop == "C20" else extra
+    ref = lambda w: P.ref_case(w, "compiled", extra_args=rextra, binary=w.meta["binary"]) if w.meta.get("binary") else P.ref_case(w, extra_args=rextra)
     ok, got = psim.replay_psim(prop, path, exe, ORACLES[prop], ref, bb)
     if ok:
         print("VIOLATION property=%s replay=%s" % (prop, path), flush=True)
